@@ -342,7 +342,8 @@ class Gen:
                 return rng.choice(self.pool)                       # repeated name
             if self.pool and x < 0.28:
                 n = rng.choice(self.pool)                          # colliding variant
-                return n.replace("-", "_") if "-" in n else n.replace("_", "-") if "_" in n else n[:1].swapcase() + n[1:]
+                return (n.replace("-", rng.choice("_:/")) if "-" in n else n.replace("_", rng.choice("-:/")) if "_" in n
+                        else n[:1].swapcase() + n[1:])
             if x < 0.40:
                 return rand_name(rng, "abcXY01_-:/", 8)
         for _ in range(20):
@@ -491,8 +492,8 @@ class Gen:
 def ident(n):
     """event_name_to_function, for the generator's bookkeeping only"""
     out, cap = [], True
-    for c in n.replace("-", "_"):
-        if c == "_":
+    for c in n:
+        if not (c.isascii() and c.isalnum()):
             cap = True
         elif cap:
             out.append(c.upper())
@@ -754,7 +755,8 @@ def enum_names():
     pairs = [(m, n) for i, m in enumerate(small) for n in small[i + 1:]]
     for m, n in pairs:
         cases.append(single([["expr", M(EMIT(V("app"), m, ["lit", "int"]), "ok")], ["expr", M(EMIT(V("app"), n, SL("s")), "ok")]]))
-    for m, n in [("a-b", "a_b"), ("user-updated", "user_updated"), ("ab", "Ab"), ("a_b", "aB"), ("x-1", "x_1"), ("a--b", "a-b"), ("_x", "x")]:
+    for m, n in [("a-b", "a_b"), ("user-updated", "user_updated"), ("ab", "Ab"), ("a_b", "aB"), ("x-1", "x_1"), ("a--b", "a-b"), ("_x", "x"),
+                 ("a:b", "a-b"), ("a/b", "a_b"), ("ns:evt", "ns/evt"), ("ns:evt", "nsEvt"), ("a:b", "a:c"), ("user:created/now", "user-created-now")]:
         cases.append(single([["expr", M(EMIT(V("app"), m, ["lit", "int"]), "ok")], ["expr", M(EMIT(V("window"), n, ["lit", "int"]), "ok")]]))
     return cases
 
